@@ -459,6 +459,10 @@ def run(rep, ctx):
     with rep.guard("R09.4"):
         from . import c10
         c10.r10_1(rep, M, "R09.4")
+    rep.rule("R09.5", "radii presets and custom arrays are resolved as documented (shared with C19)")
+    with rep.guard("R09.5"):
+        from . import shared as _sh
+        _sh.radii(rep, ctx.model, "R09.5")
     rep.floor("R09.1", 2)
     rep.floor("R09.2", 4)
     rep.floor("R09.3", 9)
